@@ -32,6 +32,15 @@ def to_simple(x):
     return x
 
 
+def strip_frames(x):
+    """the tree without the frame of every OVER clause"""
+    if type(x) is list:
+        return [strip_frames(v) for v in x]
+    if type(x) is dict:
+        return {k: ({kk: strip_frames(vv) for kk, vv in v.items() if kk != "range"} if k == "over" and type(v) is dict else strip_frames(v)) for k, v in x.items()}
+    return x
+
+
 def shape_violation(x, path="$"):
     if type(x) is list:
         for i, v in enumerate(x):
@@ -100,6 +109,11 @@ def oracle(ctx, rnd, parser, sql, nullkw, ac):
     if fake_nodes(S):
         return 0  # statement whose default tree already contains an {"op": ...} shaped dict: the rewrite of the property text is ambiguous there
     n = 1
+    if canon(to_simple(N)) != canon(S) and "C12:frame-bound-simplified-early" in ctx.finding_keys() and canon(strip_frames(to_simple(N))) == canon(strip_frames(S)):
+        # the two representations differ only inside a window frame: the listed finding (frame bounds are simplified while the grammar is still matching)
+        fd = ctx.finding_keys()["C12:frame-bound-simplified-early"]
+        ctx.known(fd["key"], "%s e.g. %s" % (fd["what"], fd["witness"]))
+        return n
     if canon(to_simple(N)) != canon(S):
         ctx.violation("input", dict(call=call, returned_normal=short(N, 1000), returned_default=short(S, 1000),
                                     requires="to_simple(parse(sql, calls=normal_op)) == parse(sql)", to_simple=short(to_simple(N), 1000)))
